@@ -42,7 +42,9 @@ def build_label(rng):
     nm = lambda: rng.choice(["A", "Ab", "X_1", "LINES", "q9"])
     ident = rng.choice(["IDENT", "abc", "V_2"])
     q = rng.choice(['"', "'"])
-    nl = rng.choice(["\n", "\n", "\r\n"])
+    # line ends: LF, CR LF, and (rarely) a lone CR - white space in every
+    # grammar, but only LF counts as a line for LexerError.lineno/colno
+    nl = rng.choice(["\n", "\n", "\n", "\r\n", "\r\n", "\r", "\n\r"])
     # delimited tokens also come in multi-line form: the error position
     # arithmetic has to cope with a lexeme that spans lines
     qs = rng.choice(["s", "two words", "x=1", "q(1,2)",
@@ -154,7 +156,7 @@ class C15(Property):
                        "probe.fault-on-later-line-of-multiline-token",
                        "probe.route:grammar", "probe.route:decoder",
                        "probe.route:both", "probe.route:bytes",
-                       "probe.route:binary-stream",
+                       "probe.route:binary-stream", "probe.route:mismatch",
                        "probe.fault-at-first-character"]
 
     # ---- one explicit case
@@ -227,7 +229,8 @@ class C15(Property):
                 doc = getattr(e, "doc", None)
                 nodash = re.sub("-[\n\r\f][ \t\n\r\v\f]*", "", text)
                 ok_doc = doc == text or (
-                    route in ("grammar", "decoder", "both") and doc == nodash)
+                    route in ("grammar", "decoder", "both", "mismatch")
+                    and doc == nodash)
                 pos = getattr(e, "pos", None)
                 if not ok_doc:
                     viol("error-doc", "e.doc is not the text", config)
@@ -369,7 +372,7 @@ class C15(Property):
                     "configs": ["PVL", "ODL", "PDS3", "default"],
                     "route": rng.choice(["parser", "parser", "grammar",
                                          "decoder", "both", "bytes",
-                                         "binary-stream"])}
+                                         "binary-stream", "mismatch"])}
             vs, nt = self.execute_case(case, out)
             out.violations.extend(vs)
             if nt:
